@@ -468,6 +468,8 @@ var twins = [][2]string{
 	{"same first line\nsecond", "same first line\nother second line"},
 }
 
+var sharedStorage = "0123456789abcdef0123-a text other texts are cut from"
+
 var scaleSizes = []int{17, 33, 64, 65, 66, 70, 129, 130, 257, 300}
 
 // Table draws a random table spec.
@@ -600,6 +602,11 @@ func (r *R) Table(o TableOpts) TableSpec {
 		}
 		if len(slots) >= 2 {
 			tw := Pick(r, twins)
+			if r.Chance(1, 4) {
+				// two different texts that begin at the same ADDRESS: one is a leading slice of the other's storage
+				// (commit[:7] next to commit, a directory next to the full path)
+				tw = [2]string{sharedStorage, sharedStorage[:r.Range(1, len(sharedStorage)-1)]}
+			}
 			a := r.Intn(len(slots))
 			b := (a + 1 + r.Intn(len(slots)-1)) % len(slots)
 			*slots[a], *slots[b] = StrItem(tw[0]), StrItem(tw[1])
